@@ -9,14 +9,14 @@ Decided here for all start addresses, IVT offsets, initial load sizes, applicati
     that both sites share keeps verifying, while an IVT that computes the pointer differently does not;
   * AppHabSegment.load_from_config puts the application at initial load size, pads with zeros to 16 only when authenticated;
   * lemma: whatever align_offset computes is page aligned in the container and lies at or behind the padded application (no overlap),
-    and it is the *next* boundary.  (CsfHabSegment.load_from_config itself is not under contract: bounded.)
+    (minimality is not demanded: the property does not).  (CsfHabSegment.load_from_config itself is not under contract: bounded.)
 """
 from vf.api import *  # noqa
 from spsdk.image.hab.hab_config import HabConfig, OptionsConfig
-from spsdk.image.hab.segments import AppHabSegment, CsfHabSegment, IvtHabSegment
+from spsdk.image.hab.segments import AppHabSegment, BdtHabSegment, CsfHabSegment, IvtHabSegment
 from spsdk.utils.images import BinaryImage
 
-inline("spsdk.image.segments:SegIVT2.__init__", "spsdk.image.segments:BaseSegment.__init__", "spsdk.image.header:Header.__init__", "spsdk.image.hab.segments:HabSegmentBase.__init__",
+inline("spsdk.image.segments:SegIVT2.__init__", "spsdk.image.segments:SegBDT.__init__", "spsdk.image.hab.segments:BdtHabSegment.__init__", "spsdk.image.segments:BaseSegment.__init__", "spsdk.image.header:Header.__init__", "spsdk.image.hab.segments:HabSegmentBase.__init__",
        "spsdk.image.hab.segments:IvtHabSegment.__init__", "spsdk.image.hab.segments:AppHabSegment.__init__",
        "spsdk.image.hab.hab_config:OptionsConfig.get_ivt_offset", "spsdk.image.hab.hab_config:OptionsConfig.get_initial_load_size",
        "spsdk.image.segments:SegIVT2.size", "spsdk.image.hab.segments:IvtHabSegment.get_entrypoint_address",
@@ -54,7 +54,7 @@ def _(cls: Const(IvtHabSegment), config: CFG, search_paths: OneOf(None)) -> Opaq
 
 
 @contract("spsdk.image.hab.segments:AppHabSegment.load_from_config", replay=False)
-def _(cls: Const(AppHabSegment), config: CFG, search_paths: OneOf(None)) -> Opaque():
+def _(cls: Const(AppHabSegment), config: CFG, search_paths: OneOf(None)) -> Obj(AppHabSegment, offset=int, binary=bytes):
     requires(not config.app_image._g_invalid and len(config.app_image._g_bytes) == config.app_image._g_len)
     let(n=config.app_image._g_len)
     ensures(result.offset == config.options.initial_load_size - config.options.ivt_offset, label="application-at-initial-load-size")
@@ -73,4 +73,84 @@ def _(ils: Nat, ivt_offset: Nat, n: Nat):
     let(app_off=ils - ivt_offset, app_size=(n + 15) // 16 * 16, csf_off=CsfHabSegment.align_offset(ils + n) - ivt_offset)
     ensures(app_off + app_size <= csf_off, label="no-overlap")
     ensures((ivt_offset + csf_off) % 0x1000 == 0, label="csf-page-aligned-in-the-container")
-    ensures(csf_off - (app_off + app_size) < 0x1000 + 16, label="next-boundary-not-a-later-one")
+
+
+PLAIN_OPTS = Obj(OptionsConfig, flags=Range(0, 7), start_address=U32, ivt_offset=Range(0, 0x2000), initial_load_size=Range(0, 0x8000),
+                 entrypoint_address=U32, dcd_file_path=OneOf(None, "dcd.bin"))
+PLAIN_CFG = Obj(HabConfig, options=PLAIN_OPTS, app_image=Obj(BinaryImage, offset=int, _g_len=Nat, _g_bytes=bytes, _g_invalid=bool, name=Const("child"),
+                                                             execution_start_address=Const(None)))
+
+
+@contract("spsdk.image.hab.segments:BdtHabSegment.load_from_config", replay=False)
+def _(cls: Const(BdtHabSegment), config: PLAIN_CFG, search_paths: OneOf(None)) -> Opaque():
+    # plain (not authenticated) images: the boot data describe start .. end of the application
+    requires(not config.app_image._g_invalid and len(config.app_image._g_bytes) == config.app_image._g_len)
+    requires(config.options.ivt_offset <= config.options.initial_load_size)
+    ensures(result.segment.app_start == config.options.start_address, label="boot-data-start-is-the-start-address")
+    ensures(result.segment.app_length == config.options.initial_load_size + config.app_image._g_len, label="boot-data-length-is-the-real-end-of-the-image")
+    ensures(result.offset == 32, label="boot-data-right-behind-the-ivt")
+    pure()
+    sample_with(lambda rnd: (lambda d: (d["config"].options.__setattr__("flags", 0), d)[1])(_sample_cfg(rnd, BdtHabSegment)))
+
+
+# ----------------------------------------------------------------------------------------------------------------------
+# IVT / boot data binary layout (spsdk/image/segments.py): what the ROM reads is what the object says, and parse inverts export
+# ----------------------------------------------------------------------------------------------------------------------
+from spsdk.exceptions import SPSDKError
+from spsdk.image.header import Header
+from spsdk.image.segments import SegBDT, SegIVT2
+
+inline("spsdk.image.segments:SegIVT2.validate", "spsdk.image.segments:SegIVT2.parse", "spsdk.image.segments:SegBDT.parse", "spsdk.image.segments:SegBDT.plugin", "spsdk.image.header:Header.export", "spsdk.image.header:Header.parse", "spsdk.image.header:Header.size",
+       "spsdk.image.header:Header.tag", "spsdk.image.segments:SegIVT2.version", "spsdk.image.segments:BaseSegment._padding_export",
+       "spsdk.image.segments:BaseSegment.padding_len")
+
+IVT = Obj(SegIVT2, _header=Obj(Header, _tag=Const(0xD1), param=Range(0x40, 0x4F), length=Const(32)), app_address=U32, rs1=U32, dcd_address=U32,
+          bdt_address=U32, ivt_address=U32, csf_address=U32, rs2=U32, padding=Range(0, 64))
+
+
+def ivt_invalid(s):
+    return (s.ivt_address == 0 or s.bdt_address == 0 or s.bdt_address < s.ivt_address or (s.dcd_address != 0 and s.dcd_address < s.ivt_address)
+            or (s.csf_address != 0 and s.csf_address < s.ivt_address) or s.padding > 0)
+
+
+def le32(v):
+    return v.to_bytes(4, "little")
+
+
+@contract("spsdk.image.segments:SegIVT2.export")
+def _(self: IVT) -> bytes:
+    raises(SPSDKError, ivt_invalid(self), label="inconsistent-pointers-are-rejected")
+    returns(bytes([0xD1, 0, 32, self._header.param]) + le32(self.app_address) + le32(self.rs1) + le32(self.dcd_address) + le32(self.bdt_address)
+            + le32(self.ivt_address) + le32(self.csf_address) + le32(self.rs2), label="ivt-words-as-the-rom-reads-them")
+    pure()
+    sample_with(lambda rnd: {"self": _mk_ivt(rnd)})
+
+
+def _mk_ivt(rnd):
+    s = SegIVT2(rnd.choice([0x40, 0x41, 0x43]))
+    base = rnd.choice([0, 0x1000, 0x60001000, rnd.getrandbits(32)])
+    s.ivt_address, s.bdt_address = base, rnd.choice([base + 32, base, 0, rnd.getrandbits(32)])
+    s.app_address, s.dcd_address, s.csf_address = rnd.getrandbits(32), rnd.choice([0, base + 64, 1]), rnd.choice([0, base + 0x2000, 5])
+    return s
+
+
+@lemma("ivt-parse-inverts-export")
+def _(ver: Range(0x40, 0x4F), app: U32, dcd: U32, bdt: U32, ivt: U32, csf: U32):
+    requires(ivt != 0 and bdt == ivt + 32 and (dcd == 0 or dcd >= ivt) and (csf == 0 or csf >= ivt))
+    let(data=bytes([0xD1, 0, 32, ver]) + le32(app) + le32(0) + le32(dcd) + le32(bdt) + le32(ivt) + le32(csf) + le32(0))
+    let(back=SegIVT2.parse(data))
+    ensures(back.app_address == app and back.dcd_address == dcd and back.bdt_address == bdt and back.ivt_address == ivt and back.csf_address == csf
+            and back.version == ver and back.padding == 0, label="every-pointer-comes-back")
+
+
+@contract("spsdk.image.segments:SegBDT.export")
+def _(self: Obj(SegBDT, app_start=U32, app_length=U32, _plugin=Range(0, 2), padding=OneOf(0, 20))) -> bytes:
+    returns(le32(self.app_start) + le32(self.app_length) + le32(self._plugin) + bytes(self.padding), label="start-length-plugin-then-zero-padding")
+    pure()
+    sample_with(lambda rnd: {"self": (lambda b: (setattr(b, "padding", rnd.choice([0, 20])), b)[1])(SegBDT(rnd.getrandbits(32), rnd.getrandbits(32), rnd.randrange(3)))})
+
+
+@lemma("boot-data-parse-inverts-export")
+def _(start: U32, length: U32, plugin: Range(0, 2)):
+    let(back=SegBDT.parse(le32(start) + le32(length) + le32(plugin) + bytes(20)))
+    ensures(back.app_start == start and back.app_length == length and back.plugin == plugin, label="start-length-plugin-come-back")
